@@ -100,6 +100,9 @@ func cmdC10(args []string) int {
 		cxOrig, _ := coregex.Compile(pat)
 		cxCopy := cxOrig.Copy()
 		cxCopy.Longest()
+		// mode switched AFTER the value has been used in default mode (pooled per-search state
+		// already exists and carries the old mode)
+		cxUsed, _ := coregex.Compile(pat)
 		var stdP *regexp.Regexp
 		var cxP *coregex.Regex
 		if sp, err := regexp.CompilePOSIX(pat); err == nil {
@@ -116,6 +119,12 @@ func cmdC10(args []string) int {
 		st.hist("src:" + src)
 		st.hist("strategy:" + strat)
 		hg := newHayGen(r.fork(uint64(i)+3000), ast)
+		for _, w := range [][]byte{hg.next(1), hg.next(2), hg.next(4)} { // warm-up in default mode
+			for _, api := range []string{"Match", "FindSubmatchIndex", "FindAllIndex", "ReplaceAll"} {
+				observe(cxUsed, api, w)
+			}
+		}
+		cxUsed.Longest()
 		for j := 0; j < nhay; j++ {
 			h := hg.next(j)
 			key := pat + "\x00" + string(h)
@@ -143,13 +152,21 @@ func cmdC10(args []string) int {
 				}
 				chk("longest", cxL, wantL)
 				chk("copy-then-longest", cxCopy, wantL)
+				// a value that was searched in default mode before Longest() must behave like a value
+				// on which Longest() was called right after Compile (compared with coregex itself, so
+				// that the recorded longest-mode findings do not leak into this relation)
+				if g1, g2 := observe(cxUsed, api, h), observe(cxL, api, h); g1 != g2 {
+					st.violate(violation{Kind: "used-then-longest:" + api, Case: i,
+						Detail: map[string]any{"api": api, "pattern": pat, "haystack": string(h), "strategy": strat, "used_then_longest": g1, "longest_from_start": g2, "regexp_longest": wantL},
+						Sig:    fmt.Sprintf("used-then-longest:%s pat=%q hay=%x got=%s", api, pat, h, short(g1, 80)), Expected: g2, Got: g1, RC: "mode-not-applied-to-used-value/" + strat})
+				}
 				// the original of the copy and a separately compiled value stay leftmost-first:
 				// compared with what the SAME library returns in first mode (so that C02's findings
 				// do not leak into this relation)
 				if g1, g2 := observe(cxOrig, api, h), observe(cxF, api, h); g1 != g2 {
 					st.violate(violation{Kind: "mode-leaks-to-original:" + api, Case: i,
 						Detail: map[string]any{"api": api, "pattern": pat, "haystack": string(h), "strategy": strat, "original_after_copy_longest": g1, "fresh_first_mode": g2},
-						Sig: fmt.Sprintf("mode-leaks-to-original:%s pat=%q hay=%x got=%s", api, pat, h, short(g1, 80)), Expected: g2, Got: g1, RC: "mode-leak/" + strat})
+						Sig:    fmt.Sprintf("mode-leaks-to-original:%s pat=%q hay=%x got=%s", api, pat, h, short(g1, 80)), Expected: g2, Got: g1, RC: "mode-leak/" + strat})
 				}
 				if stdP != nil {
 					chk("posix", cxP, stdObserve(stdP, api, h))
@@ -282,6 +299,7 @@ func cmdC12(args []string) int {
 		for j := range hays {
 			hays[j] = hg.next(j)
 		}
+		hays = append(hays, hg.perLiteral()...)
 		if *child != "" {
 			for j, h := range hays {
 				for _, api := range apis {
@@ -341,7 +359,7 @@ func cmdC12(args []string) int {
 				if got, want := fmtInts(def.FindSubmatchIndex(h)), fmtInts(ref); got != want {
 					st.violate(violation{Kind: "default-vs-nfa-reference:FindSubmatchIndex", Case: i,
 						Detail: map[string]any{"pattern": pat, "haystack": string(h), "haystack_hex": fmt.Sprintf("%x", h), "strategy": strat, "reference_on_compiled_nfa": want, "got": got},
-						Sig: fmt.Sprintf("default-vs-nfa-reference pat=%q hay=%x got=%s", pat, h, short(got, 80)), Expected: want, Got: got, RC: "default-vs-nfa-reference/" + strat})
+						Sig:    fmt.Sprintf("default-vs-nfa-reference pat=%q hay=%x got=%s", pat, h, short(got, 80)), Expected: want, Got: got, RC: "default-vs-nfa-reference/" + strat})
 				}
 			}
 		}
